@@ -187,7 +187,7 @@ def s_prepare(vc):
         vc.ensure("cross_site_state_change.refused_before_handler", not out.ok)
         if not out.ok:
             # tornado turns tornado.web.HTTPError(403) into a 403 response; any other exception into 500 + traceback in the log
-            vc.ensure_kf("cross_site_state_change.answered_403", issubclass(out.raised_type(), tornado.web.HTTPError), "KF-C46-2", True)
+            vc.ensure("cross_site_state_change.answered_403", issubclass(out.raised_type(), tornado.web.HTTPError))   # was KF-C46-2
     else:
         vc.ensure("otherwise.passes", out.ok)
 
@@ -220,8 +220,7 @@ def s_password(vc):
     wa = vc.new(WA, _password=stored, _hasher=hasher)
     out = vc.call(WA + ".is_valid_password", wa, given)
     if mode == "plaintext":
-        nonascii = Not(And(_ascii(vc, stored), _ascii(vc, given)))
-        vc.ensure_kf("plaintext.no_exception", out.ok, "KF-C46-1", nonascii)
+        vc.ensure("plaintext.no_exception", out.ok)   # non-ASCII text made hmac.compare_digest raise: KF-C46-1, fixed in 2f47ac10e / 0129de075
         if not out.ok:
             return
         vc.ensure("plaintext.true_iff_equal", Iff(out.result, given == stored))
